@@ -3,6 +3,7 @@ import re
 import vdriver as V
 import C15
 import C16
+import C20
 
 
 def jobs(tier):
@@ -37,13 +38,18 @@ def jobs(tier):
             j.name = "vnacal." + j.name
             j.canary = False
             J.append(j)
+    for j in C20.jobs("quick"):
+        if re.match(r"add_counts\.(T8|UE14)_2x2_bad|solve_too_few\.(T8|UE14)_2x2", j.name):
+            j.name = "vnacal_new." + j.name
+            j.canary = False
+            J.append(j)
     return J
 
 
 ASSUME = [
     "vasprintf by contract stub in the verror harness (fails with -1 or returns a fresh string)",
     "the refusal/unchanged clauses for vnadata_* and the vnacal tables are those of the C15/C16 harnesses (re-run here); see their assumptions",
-    "not covered: errno/callback behaviour of the file loaders and savers (stdio), vnacal_new_add_* build-then-link (see C17/C20 notes), solve retry",
+    "vnacal_new_add_* build-then-link and failed-solve-is-retryable are checked along the concrete histories of the C20 harnesses (re-run here); not covered: errno/callback behaviour of the file loaders and savers (stdio)",
 ]
 TRUSTED = ["CBMC 6.11 DFCC (goto-instrument --dfcc --enforce-contract)", "stubs/verif_err.c", "stubs/verif_libc.c"]
 
